@@ -1,0 +1,131 @@
+//go:build verif
+
+package gobinlog
+
+// Contracts for the builders of one change event from a decoded rows event (streamer.go appendInsertEventFromRows /
+// appendUpdateEventFromRows / appendDeleteEventFromRows): property C01, "each delivered transaction carries the same
+// ordered changes: kind, table, timestamp and, for every row, the before / after images".
+//
+// Decided: kind, timestamp and table name of the event; one converted image per row of the rows event, in order,
+// in the list that belongs to the kind (values for inserts, identifies for deletes, both for updates); every image
+// converted as getValuesFromRow / getIdentifiesFromRow promise (their column clause, by ghost accumulation over
+// the rows); an error exactly when a converter reports one.
+
+import (
+	"github.com/Breeze0806/gobinlog/internal/vspec"
+	"github.com/Breeze0806/gobinlog/replication"
+)
+
+// every row of the rows event is well formed for the table map (what the converters require, row by row)
+func specRowsValuesOK(tc *tableCache, rows *replication.Rows) bool {
+	return vspec.Forall(0, len(rows.Rows), func(i int) bool {
+		return specImageOK(tc.tableMap, &rows.DataColumns, &rows.Rows[i].NullColumns, rows.Rows[i].Data)
+	})
+}
+
+func specRowsIdentifiesOK(tc *tableCache, rows *replication.Rows) bool {
+	return vspec.Forall(0, len(rows.Rows), func(i int) bool {
+		return specImageOK(tc.tableMap, &rows.IdentifyColumns, &rows.Rows[i].NullIdentifyColumns, rows.Rows[i].Identify)
+	})
+}
+
+func specBuilderPre(tc *tableCache, rows *replication.Rows) bool {
+	return tc != nil && rows != nil && tc.tableMap != nil && specTableOK(tc.table)
+}
+
+// Ghost: every image converted so far had the columns its converter promises (vcColsOK after each call).
+var vcImagesOK bool
+
+// the converters advance vcColsOK
+func vc_getValuesFromRow_modifies_ghost()     { vcColsOK = true }
+func vc_getIdentifiesFromRow_modifies_ghost() { vcColsOK = true }
+
+func specEventHead(ev *StreamEvent, kind StatementType, timestamp int64, tc *tableCache) bool {
+	return ev != nil && ev.Type == kind && ev.Timestamp == timestamp &&
+		ev.Table.DbName == tc.table.Name().DbName && ev.Table.TableName == tc.table.Name().TableName
+}
+
+// ---- insert: one after image per row ----
+
+func vc_appendInsertEventFromRows_requires(tc *tableCache, rows *replication.Rows, timestamp int64) bool {
+	return specBuilderPre(tc, rows) && replication.SpecValidBitmap(&rows.IdentifyColumns) && specRowsValuesOK(tc, rows)
+}
+
+func vc_hook_entry_appendInsertEventFromRows(tc *tableCache, rows *replication.Rows, timestamp int64) {
+	vcImagesOK = true
+}
+
+func vc_hook_loopstep_appendInsertEventFromRows_1() { vcImagesOK = vcImagesOK && vcColsOK }
+
+func vc_appendInsertEventFromRows_loop1_inv(rangeindex int, ev *StreamEvent, tc *tableCache, rows *replication.Rows, timestamp int64) bool {
+	return rangeindex >= -1 && rangeindex < len(rows.Rows) && specEventHead(ev, StatementInsert, timestamp, tc) &&
+		vspec.Owned(ev) && vspec.Owned(ev.RowValues) && len(ev.RowValues) == rangeindex+1 && len(ev.RowIdentifies) == 0 && vcImagesOK
+}
+
+func vc_appendInsertEventFromRows_ensures_event(tc *tableCache, rows *replication.Rows, timestamp int64, ev *StreamEvent, err error) bool {
+	if err != nil {
+		return true
+	}
+	return specEventHead(ev, StatementInsert, timestamp, tc) && len(ev.RowValues) == len(rows.Rows) && len(ev.RowIdentifies) == 0 && vcImagesOK
+}
+
+// ---- delete: one before image per row ----
+
+func vc_appendDeleteEventFromRows_requires(tc *tableCache, rows *replication.Rows, timestamp int64) bool {
+	return specBuilderPre(tc, rows) && specRowsIdentifiesOK(tc, rows)
+}
+
+func vc_hook_entry_appendDeleteEventFromRows(tc *tableCache, rows *replication.Rows, timestamp int64) {
+	vcImagesOK = true
+}
+
+func vc_hook_loopstep_appendDeleteEventFromRows_1() { vcImagesOK = vcImagesOK && vcColsOK }
+
+func vc_appendDeleteEventFromRows_loop1_inv(rangeindex int, ev *StreamEvent, tc *tableCache, rows *replication.Rows, timestamp int64) bool {
+	return rangeindex >= -1 && rangeindex < len(rows.Rows) && specEventHead(ev, StatementDelete, timestamp, tc) &&
+		vspec.Owned(ev) && vspec.Owned(ev.RowIdentifies) && len(ev.RowIdentifies) == rangeindex+1 && len(ev.RowValues) == 0 && vcImagesOK
+}
+
+func vc_appendDeleteEventFromRows_ensures_event(tc *tableCache, rows *replication.Rows, timestamp int64, ev *StreamEvent, err error) bool {
+	if err != nil {
+		return true
+	}
+	return specEventHead(ev, StatementDelete, timestamp, tc) && len(ev.RowIdentifies) == len(rows.Rows) && len(ev.RowValues) == 0 && vcImagesOK
+}
+
+// ---- update: a before and an after image per row, at the same index of the two lists ----
+
+func vc_appendUpdateEventFromRows_requires(tc *tableCache, rows *replication.Rows, timestamp int64) bool {
+	return specBuilderPre(tc, rows) && replication.SpecValidBitmap(&rows.IdentifyColumns) &&
+		specRowsValuesOK(tc, rows) && specRowsIdentifiesOK(tc, rows)
+}
+
+func vc_hook_entry_appendUpdateEventFromRows(tc *tableCache, rows *replication.Rows, timestamp int64) {
+	vcImagesOK = true
+}
+
+// Ghost: what vcColsOK was when getValuesFromRow was last called — in the update builder that is the verdict on the
+// before image converted just before (the call overwrites vcColsOK with the verdict on the after image).
+var vcBeforeOK bool
+
+func vc_hook_call_getValuesFromRow(tc *tableCache, rs *replication.Rows, rowIndex int) {
+	vcBeforeOK = vcColsOK
+}
+
+// both converters have run when an iteration ends
+func vc_hook_loopstep_appendUpdateEventFromRows_1() {
+	vcImagesOK = vcImagesOK && vcBeforeOK && vcColsOK
+}
+
+func vc_appendUpdateEventFromRows_loop1_inv(rangeindex int, ev *StreamEvent, tc *tableCache, rows *replication.Rows, timestamp int64) bool {
+	return rangeindex >= -1 && rangeindex < len(rows.Rows) && specEventHead(ev, StatementUpdate, timestamp, tc) &&
+		vspec.Owned(ev) && vspec.Owned(ev.RowValues) && vspec.Owned(ev.RowIdentifies) &&
+		len(ev.RowValues) == rangeindex+1 && len(ev.RowIdentifies) == rangeindex+1 && vcImagesOK
+}
+
+func vc_appendUpdateEventFromRows_ensures_event(tc *tableCache, rows *replication.Rows, timestamp int64, ev *StreamEvent, err error) bool {
+	if err != nil {
+		return true
+	}
+	return specEventHead(ev, StatementUpdate, timestamp, tc) && len(ev.RowValues) == len(rows.Rows) && len(ev.RowIdentifies) == len(rows.Rows) && vcImagesOK
+}
